@@ -165,6 +165,27 @@ def h_gv_dependent(ctx: Ctx, cfg):
     ctx.require(ok, "validate:Dependent-rejects-generated-value")
 
 
+def h_redeclared(ctx: Ctx, cfg):
+    """a refinement re-declared between two extractions from the same classes: programs made from
+    the second grammar satisfy the declaration that is current when it is extracted"""
+    from vf.fixtures import f17
+
+    lo1, lo2 = ctx.cint(0, 2, "first_lo"), ctx.cint(3, 5, "second_lo")
+    r = FreshRandom(ctx)
+    try:
+        for lo in (lo1, lo2):
+            g = ctx.concrete(lambda: (f17.declare(lo, lo + 1), f17.grammar())[1])
+            rep = synth.make_rep(cfg, g, r)
+            p = rep.genotype_to_phenotype(rep.create_genotype(r))
+            ctx.reached()
+            try:
+                OT.check_welltyped(p, f17.START, synth.registered_classes(f17))
+            except OT.Verdict as e:
+                ctx.fail(e.clause, dict(e.detail, declared=[lo, lo + 1], first_declaration=[lo1, lo1 + 1]))
+    finally:
+        f17.declare(0, 1)
+
+
 def h_stack_find(ctx: Ctx, cfg):
     """find_element_that_meets_mh over a symbolic base-type stack"""
     n = ctx.cint(0, cfg["n"], "n")
@@ -216,6 +237,8 @@ def obligations(tier: str):
     if T:
         pipe("tree_f5ctx_mutate", fixture="f5ctx", rep="tree", decider="grow", max_depth=2, ops=["mutate"], fuel=40)
     pipe("tree_f5_RD_mutate", fixture="f5", grammar_fn="g_RD", rep="tree", decider="grow", max_depth=2, ops=["mutate"])
+    for rp in ("tree", "ge", "sge"):
+        obs.append(Ob("redeclared", {"rep": rp, "decider": "grow", "max_depth": 2, "gene_length": 4 if rp == "ge" else 1, "fuel": 100}, name=f"{rp}_f17_refinement_redeclared", timeout=100 * (8 if T else 1)))
     pipe("tree_f2_create", fixture="f2", rep="tree", decider="grow", max_depth=2)
     for v in ("UI", "LL", "ND", "TL"):
         pipe(f"tree_f14_{v}_create", fixture="f14", grammar_fn="g_" + v, rep="tree", decider="grow", max_depth=2)
